@@ -107,7 +107,9 @@ def run(run, tier, replay=None):
         # ---- (b) runtime values (reuse C02's worker: generated from_dict executed in a fresh interpreter)
         jobs = [(l, d, rng.randrange(1 << 30), 4 if tier == "quick" else 16, cfg) for l, d, cfg in sdocs + lit[:3]]
         cres = list(ex.map(c02.work, jobs))
-        mdocs = (sdocs[:2] + [sdocs[2], sdocs[-3]] + odocs[:6] + lit[:2]) if tier == "quick" else (sdocs + odocs + lit)
+        byl = {l: (l, d, c) for l, d, c in sdocs}
+        extra = [("builtin_names", G.builtin_names_doc(), None), ("enum_edge", G.enum_edge_doc(), None)]
+        mdocs = ([byl[l] for l in ("leaves", "models", "unions0", "triples", "allof") if l in byl] + extra + odocs[:6] + lit[:2]) if tier == "quick" else (sdocs + extra + odocs + lit)
         mres = list(ex.map(mypy_tree, mdocs))
     terms, meta = [], []
     for r in tres:
@@ -173,6 +175,10 @@ def run(run, tier, replay=None):
                     continue
             if "[redundant-cast]" in e and re.match(r"\w+ = cast\(list\[Any\], data\)$", src) and 'Redundant cast to "list[Any]"' in e:
                 if run.known_finding("mypy_union_list_any_redundant_cast", f"tree '{m['label']}': {e[:160]} | {src}"):
+                    continue
+            if "[arg-type]" in e and src == "cls=cls," and 'Argument "cls"' in e and "/models/" in e:
+                # a document property named `cls` is the from_dict parameter `cls` (C18's listed capture): the constructor call passes the class
+                if run.known_finding("capture_model_from_dict_cls", f"tree '{m['label']}': {e[:200]} | {src}"):
                     continue
             if "[assignment]" in e and src.startswith("cookies[") and "/api/" in e:
                 if run.known_finding("mypy_cookie_optional", f"tree '{m['label']}': {e[:200]} | {src}"):
